@@ -1,7 +1,7 @@
 """C19 - listeners are told of every structural change before it happens (Engine A + shadow)."""
 import time
 
-from vlib import core, engine_a, scenarios
+from vlib import core, engine_a, engine_b, scenarios
 from vlib.engine_a import Oracle
 from vlib.world import snapshot
 
@@ -238,6 +238,149 @@ engine_a.ORACLES[ID] = C19Oracle
 engine_a.ORACLES[ID + "x2"] = C19Oracle2
 
 
+# ------------------------------------------------------------------ partial listeners (Engine B form)
+def hook_names():
+    from spydrnet.callback.callback_listener import CallbackListener
+    return sorted(n[len("register_"):] for n in dir(CallbackListener)
+                  if n.startswith("register_") and n != "register_all_listeners")
+
+
+def make_partial(hooks, log):
+    """a listener class overriding exactly `hooks`; each call is logged as (hook, raw args)."""
+    from spydrnet.callback.callback_listener import CallbackListener
+
+    def mk(h):
+        def f(self, *a):
+            log.append((h, a))
+        f.__name__ = h
+        return f
+    return type("Partial", (CallbackListener,), {h: mk(h) for h in hooks})
+
+
+def _descr(w, log, reachable):
+    """log entries with element arguments replaced by their pool index; objects the pool cannot reach
+    (index >= reachable) are described by type and name, not by an index that depends on what was logged."""
+    out = []
+    for h, args in log:
+        row = [h]
+        for a in args:
+            if id(a) in w.index and w.index[id(a)] < reachable:
+                row.append(("#", w.index[id(a)]))
+            elif id(a) in w.index:
+                row.append(("unreachable", type(a).__name__, getattr(a, "name", None)))
+            elif type(a).__module__.startswith("spydrnet"):
+                row.append(("new", type(a).__name__))
+            else:
+                row.append(("v", core.freeze(a)))
+        out.append(tuple(row))
+    return out
+
+
+def _containers():
+    from spydrnet.global_state import global_callback
+    return {k: len(v) for k, v in vars(global_callback).items() if k.startswith("_container_")}
+
+
+def _run_with(scn, hooks, ev):
+    """seed (+ one event) under a listener overriding exactly `hooks`: (outcome, digest, seed log, event log,
+    registration problems)."""
+    core.reset_world()
+    core.set_order("asc")
+    core.sdn().namespace_manager.default = scn.policy
+    before = _containers()
+    log, probs = [], []
+    lst = None
+    try:
+        lst = make_partial(hooks, log)()
+    except Exception as ex:
+        probs.append(("listener-registration-raised:" + type(ex).__name__, repr(ex)[:200]))
+    from vlib.world import World
+    w = World()
+    outcome, dig, d, nseed = ("seed", None), None, [], 0
+    try:
+        scn.seed(w)
+    except Exception as ex:   # only a listener can make the seed script fail
+        probs.append(("seed-raised-under-listener:" + type(ex).__name__, repr(ex)[:200]))
+        outcome = ("seed-raised", type(ex).__name__)
+    else:
+        w.discover()
+        nseed = len(log)
+        if ev is not None:
+            outcome = engine_a.apply_event(w, engine_a.ops.build_ops(), ev)
+        dig = core.digest(snapshot(w))
+        # (objects a listener heard of but the pool cannot reach are indexed only now, for the comparison of logs)
+        reachable = len(w.pool)
+        w.discover(extra=[a for _, args in log for a in args if type(a).__module__.startswith("spydrnet.ir")])
+        d = _descr(w, log, reachable)
+    if lst is not None:
+        try:
+            lst.deregister_all_listeners()
+        except Exception as ex:
+            probs.append(("listener-deregistration-raised:" + type(ex).__name__, repr(ex)[:200]))
+    after = _containers()
+    if after != before:
+        left = sorted(k for k in after if after[k] != before[k])
+        probs.append(("listener-left-registered", "after deregister_all_listeners: %s" % left))
+        from spydrnet.global_state import global_callback
+        for k in left:   # do not let the residue reach the next case
+            cont = getattr(global_callback, k)
+            del cont[before[k]:]
+    return outcome, dig, d[:nseed], d[nseed:], probs
+
+
+def partial_worker(case):
+    """every single-hook listener and every all-but-one listener against the all-hooks listener and against no
+    listener, over the seed and every enabled first event of one scenario."""
+    scn = scenarios_by_name()[case[1]]
+    hooks = hook_names()
+    probs = []
+    core.reset_world()
+    core.set_order("asc")
+    core.sdn().namespace_manager.default = scn.policy
+    w = engine_a.build(scn, "asc", [])
+    events = list(engine_a.enabled(scn, w))[:: case[2]][case[3]:: case[4]]
+    del w
+    runs = 0
+    fired = set()
+    for ev in ([None] if case[3] == 0 else []) + events:
+        name = ev[0] if ev else "seed"
+        o_none, d_none, _, _, p0 = _run_with(scn, [], ev)
+        o_full, d_full, s_full, e_full, p1 = _run_with(scn, hooks, ev)
+        runs += 2
+        probs += [(c + ":none@" + name, d) for c, d in p0] + [(c + ":all@" + name, d) for c, d in p1]
+        if (o_full, d_full) != (o_none, d_none):
+            probs.append(("listeners-change-behaviour:all@" + name, "%s/%s vs %s/%s" % (o_full, d_full, o_none, d_none)))
+        log_full = s_full + e_full if ev is None else e_full
+        for h in sorted(set(r[0] for r in log_full)):
+            fired.add(h)
+            for kind, sel in (("only", [h]), ("all-but", [x for x in hooks if x != h])):
+                o, d, s_, e_, pp = _run_with(scn, sel, ev)
+                runs += 1
+                probs += [("%s:%s:%s@%s" % (c, kind, h, name), dd) for c, dd in pp]
+                if (o, d) != (o_none, d_none):
+                    probs.append(("listeners-change-behaviour:%s:%s@%s" % (kind, h, name), "%s/%s vs %s/%s" % (o, d, o_none, d_none)))
+                got = s_ + e_ if ev is None else e_
+                want = [r for r in log_full if (r[0] == h) == (kind == "only")]
+                if got != want:
+                    probs.append(("partial-listener-told-differently:%s:%s@%s" % (kind, h, name),
+                                  "expected %d announcements %s, got %d %s" % (len(want), want[:3], len(got), got[:3])))
+    return {"key": core.digest(case), "nontrivial": True, "outcome": "ok", "problems": probs, "transitions": runs,
+            "fired": sorted(fired)}
+
+
+engine_b.WORKERS[ID] = partial_worker
+
+
+def scenarios_by_name():
+    return {x.name: x for x in scenarios.STRUCTURAL + [scenarios.S6, scenarios.S7, scenarios.S8]}
+
+
+def partial_cases(tier):
+    stride = 3 if tier == "quick" else 1
+    parts = 8
+    return [("partial", name, stride, k, parts, "asc") for name in scenarios_by_name() for k in range(parts)]
+
+
 def run(tier, seed):
     cov = core.Coverage(
         "Engine A with a CallbackListener registered before the seed is built: a shadow model of plain sets/dicts is "
@@ -254,8 +397,31 @@ def run(tier, seed):
     if tier == "thorough":
         for scn in (scenarios.S5, scenarios.S7):
             engine_a.explore(ID + "x2", scn, tier, cov, found, deadline)
+    # partial listeners: registration follows what a listener overrides
+    fired = set()
+    t0 = time.time()
+    pcs = partial_cases(tier)
+    runs = 0
+    for case, r in zip(pcs, core.pimap(engine_b._call, [(ID, c) for c in pcs], 1)):
+        fired.update(r.get("fired", ()))
+        runs += r["transitions"]
+        for sig, what in r.get("problems", ()):
+            f = found.get(sig)
+            if f is None:
+                found[sig] = {"count": 1, "what": what, "case": {"engine": "B", "worker": ID, "case": case}}
+            else:
+                f["count"] += 1
+    cov.add("transitions", runs)
+    cov.add("evaluations", runs)
+    cov.add("traces_validated_against_impl", runs)
+    cov["bounds_completed"]["partial-listeners"] = {"scenarios": len(pcs), "event_stride": pcs[0][2], "runs": runs,
+                                                    "wall_s": round(time.time() - t0, 2)}
+    cov["partial_listeners"] = {"hooks": len(hook_names()), "hooks_fired_and_tried_alone": sorted(fired),
+                                "hooks_never_fired": sorted(set(hook_names()) - fired)}
     return cov, found
 
 
 def replay(case):
+    if case.get("engine") == "B":
+        return engine_b.replay_case(case)
     return engine_a.replay_case(case)
